@@ -1409,6 +1409,13 @@ class Interp:
                         break
                 if out is not None:
                     return out
+        # 2b. `self.m(...)` in a method that is being analysed for a subclass of the class that defines it (template
+        # method): the override of the frame's run-time class, not the definition the static type names
+        if isinstance(fn, ast.Attribute) and isinstance(fn.value, ast.Name) and fr.func.cls is not None and fr.callee.cls is not None and fr.callee.cls is not fr.func.cls and fr.func.positional_params and fn.value.id == fr.func.positional_params[0] and fr.func.parent is None and not fr.func.is_staticmethod():
+            meth = fr.callee.cls.find_method(fn.attr)
+            base_meth = fr.func.cls.find_method(fn.attr)
+            if meth is not None and base_meth is not None and meth is not base_meth and not any(ast.unparse(d_) == "property" for d_ in meth.node.decorator_list):
+                return [Target("repo", frame=self.bind_call(self.make_callee(meth, fr.callee.cls), call, fr, fr.V, facts=self._facts_ctx))]
         # 3. mypy fact
         if fact is None and isinstance(fn, ast.Attribute) and isinstance(fn.value, ast.Name) and fr.func.positional_params and fn.value.id == fr.func.positional_params[0] and fn.value.id in ("self", "cls"):
             # a call the analysis wrote itself (e.g. the callback of a desugared exit stack): a method of the own class
@@ -1514,6 +1521,9 @@ class Interp:
                 stored = any(isinstance(x, ast.Attribute) and x.attr == attr and isinstance(x.ctx, ast.Store) for k in c.repo_mro() for x in ast.walk(k.node))
                 if not exts and c.find_method(attr) is None and c.find_attr(attr) is None and not stored and not c.find_method("__getattr__") and not c.find_method("__getattribute__"):
                     return [Target("noattr", fullname=full[:-1], cls=c)]
+        if full.startswith("<Any>") and isinstance(call.func, ast.Attribute) and isinstance(call.func.value, ast.Name) and p.aiofiles_with_target(fr.module, fr.func.node, call.func.value.id):
+            # the file object of `async with <helper that returns aiofiles.open(...)> as f`
+            return [Target("external", fullname=f"aiofiles.threadpool.text.AsyncTextIOWrapper.{call.func.attr}", argtypes=argtypes)]
         if full.endswith("?") or full.startswith("<Any>"):
             return [Target("unknown", note=f"callee {full} not typed")]
         if full.startswith(PKG + "."):
